@@ -7,7 +7,9 @@
      add_queue_back, pop_queue_front, queue_element_free,
      xmpp_conn_send_queue_len, xmpp_conn_send_queue_drop_element, _drop_send_queue_element,
      the <a h=.../> handling of _conn_sm_handle_stanza (only what touches r_sent and the SM queue),
-     conn_disconnect (state, r_sent, sm_enabled), the queue part of _conn_reset.
+     conn_disconnect (state, r_sent, sm_enabled).
+   (_conn_reset frees whatever is left in the queue when the object is reconnected or released; that is the end
+   of a history and is exercised by the harness under ASan and the allocator's live-block count, not modelled.)
 
    Pointers are heap ids (never reused: the id doubles as the ghost identity of an element),
    NULL is None.  Every dereference goes through [load]/[store]: touching a freed cell is the
